@@ -409,6 +409,25 @@ inductive BArg where
   | bad                           -- not a byte sequence
   deriving Repr
 
+/-- a byte-sequence argument that is the destination buffer itself (`view.bytes == buffer->data`): room is made
+first, then the view is taken again.  `safe` = which of the two recognised source shapes is present (Gen/Seq.lean
+`pushSelfNoOverflow`): `janet_buffer_extra(buffer, view.len)` (true: 64-bit overflow test, then the same doubling) or
+`janet_buffer_ensure(buffer, buffer->count + view.len, 2)` (false: the sum is computed in `int32_t`, and when
+`count + len` exceeds INT32_MAX the behaviour is undefined: `ub`) -/
+def Buf.pushSelfWith (safe : Bool) (b : Buf) : Buf × Outcome Nat :=
+  if safe then
+    let r := b.extra b.count
+    match r.2 with
+    | .ok => r.1.pushBytes b.items
+    | o => (r.1, o)
+  else if (b.count : Int) + b.count > i32max then (b, .ub)
+  else
+    match b.ensure (b.count + b.count) 2 with
+    | none => (b, .oom)
+    | some b' => b'.pushBytes b.items
+
+def Buf.pushSelf (b : Buf) : Buf × Outcome Nat := Buf.pushSelfWith pushSelfNoOverflow b
+
 /-- `buffer_push_impl` over the remaining arguments -/
 def Buf.pushImpl (b : Buf) : List BArg → Buf × Outcome Nat
   | [] => (b, .ok)
@@ -418,10 +437,7 @@ def Buf.pushImpl (b : Buf) : List BArg → Buf × Outcome Nat
       | .badnum => (b, .err)
       | .bad => (b, .err)
       | .bytes bs => b.pushBytes (bs.map some)
-      | .self =>
-        match b.ensure (b.count + b.count) 2 with
-        | none => (b, .oom)
-        | some b' => b'.pushBytes b.items
+      | .self => b.pushSelf
     match r.2 with
     | .ok => r.1.pushImpl xs
     | o => (r.1, o)
@@ -455,14 +471,99 @@ def Buf.pushStringArgs (b : Buf) : List BArg → Buf × Outcome Nat
   | x :: xs =>
     let r : Buf × Outcome Nat := match x with
       | .bytes bs => b.pushBytes (bs.map some)
-      | .self =>
-        match b.ensure (b.count + b.count) 2 with
-        | none => (b, .oom)
-        | some b' => b'.pushBytes b.items
+      | .self => b.pushSelf
       | _ => (b, .err)
     match r.2 with
     | .ok => r.1.pushStringArgs xs
     | o => (r.1, o)
+
+/-- the four bytes of a `uint32_t`, little endian -/
+def wordBytes (w : Nat) : List Nat := [w % 256, w / 256 % 256, w / 65536 % 256, w / 16777216 % 256]
+
+/-- `janet_buffer_push_u32` -/
+def Buf.pushU32 (b : Buf) (w : Nat) : Buf × Outcome Nat :=
+  let r := b.extra 4
+  match r.2 with
+  | .ok => ({ r.1 with cells := writeAt r.1.cells b.count ((wordBytes w).map some), count := b.count + 4 }, .ok)
+  | o => (r.1, o)
+
+/-- an argument of buffer/push-word: a number equal to its `uint32_t` conversion, or anything else -/
+inductive WArg where
+  | word (w : Nat)       -- 0 ≤ w < 2^32
+  | bad
+  deriving Repr
+
+/-- `cfun_buffer_word` (buffer/push-word) -/
+def Buf.pushWordArgs (b : Buf) : List WArg → Buf × Outcome Nat
+  | [] => (b, .ok)
+  | .word w :: xs =>
+    let r := b.pushU32 w
+    (match r.2 with
+    | .ok => r.1.pushWordArgs xs
+    | o => (r.1, o))
+  | .bad :: _ => (b, .err)
+
+/-- the bit-index argument of buffer/bit*: a number that is an integer within `int64_t`, or anything else -/
+inductive BitArg where
+  | idx (n : Int)
+  | bad
+  deriving Repr
+
+/-- `bitloc`: (byte index, bit number) or `none` = "invalid bit index" -/
+def Buf.bitloc (b : Buf) (x : BitArg) : Option (Nat × Nat) :=
+  match x with
+  | .bad => none
+  | .idx bitindex =>
+    let byteindex := bitindex / 8          -- `bitindex >> 3`
+    let which := bitindex % 8              -- `bitindex & 7`
+    if bitindex < 0 ∨ byteindex ≥ b.count then none else some (byteindex.toNat, which.toNat)
+
+/-- read-modify-write of `buffer->data[index]` -/
+def Buf.modByte (b : Buf) (i : Nat) (f : Nat → Nat) : Buf :=
+  { b with cells := b.cells.setIfInBounds i ((b.cells.getD i none).map f) }
+
+/-- `cfun_buffer_bitset`: `data[index] |= 1 << bit` -/
+def Buf.bitSet (b : Buf) (x : BitArg) : Buf × Outcome Nat :=
+  match b.bitloc x with
+  | none => (b, .err)
+  | some (i, bit) => (b.modByte i (fun v => v ||| (1 <<< bit)), .ok)
+
+/-- `cfun_buffer_bitclear`: `data[index] &= ~(1 << bit)` (on a byte) -/
+def Buf.bitClear (b : Buf) (x : BitArg) : Buf × Outcome Nat :=
+  match b.bitloc x with
+  | none => (b, .err)
+  | some (i, bit) => (b.modByte i (fun v => v &&& (255 ^^^ (1 <<< bit))), .ok)
+
+/-- `cfun_buffer_bittoggle`: `data[index] ^= 1 << bit` -/
+def Buf.bitToggle (b : Buf) (x : BitArg) : Buf × Outcome Nat :=
+  match b.bitloc x with
+  | none => (b, .err)
+  | some (i, bit) => (b.modByte i (fun v => v ^^^ (1 <<< bit)), .ok)
+
+/-- `cfun_buffer_bitget`: `.num 1` = true, `.num 0` = false; `.val none` = an uninitialised byte was read -/
+def Buf.bitGet (b : Buf) (x : BitArg) : Outcome Nat :=
+  match b.bitloc x with
+  | none => .err
+  | some (i, bit) =>
+    match b.cells.getD i none with
+    | some v => .num (if v &&& (1 <<< bit) ≠ 0 then 1 else 0)
+    | none => .val none
+
+/-- `janet_getinteger` on every argument in turn (`none` = one of them panics) -/
+def getIntegers : List Arg → Option (List Int)
+  | [] => some []
+  | a :: rest =>
+    match getInteger a, getIntegers rest with
+    | some n, some ns => some (n :: ns)
+    | _, _ => none
+
+/-- `cfun_buffer_frombytes` -/
+def Buf.fromBytes (args : List Arg) : Option Buf :=
+  match getIntegers args with
+  | none => none
+  | some ns =>
+    let b := Buf.new ns.length
+    some { b with cells := writeAt b.cells 0 ((ns.map lowByte).map some), count := ns.length }
 
 /-- `cfun_buffer_popn` -/
 def Buf.popn (b : Buf) (n : Arg) : Buf × Outcome Nat :=
@@ -470,19 +571,23 @@ def Buf.popn (b : Buf) (n : Arg) : Buf × Outcome Nat :=
   | none => (b, .err)
   | some n => if n < 0 then (b, .err) else if (b.count : Int) < n then ({ b with count := 0 }, .ok) else ({ b with count := b.count - n.toNat }, .ok)
 
+/-- the optional byte argument of buffer/fill and buffer/new-filled: default 0 when absent (argc too small),
+`janet_getinteger(...) & 0xFF` otherwise (`none` = panic) -/
+def byteArg (byte : Option Arg) : Option Nat :=
+  match byte with
+  | none => some 0
+  | some x => (getInteger x).map lowByte
+
 /-- `cfun_buffer_fill`; `byte = none` when argc = 1 -/
 def Buf.fill (b : Buf) (byte : Option Arg) : Buf × Outcome Nat :=
-  let bv : Option Nat := match byte with
-    | none => some 0
-    | some x => (getInteger x).map lowByte
-  match bv with
+  match byteArg byte with
   | none => (b, .err)
   | some v => ({ b with cells := writeAt b.cells 0 (List.replicate b.count (some v)) }, .ok)
 
 /-- `cfun_buffer_trim` -/
 def Buf.trim (b : Buf) : Buf × Outcome Nat :=
   if (b.count : Int) < b.capacity then
-    let nc : Nat := if b.count > 4 then b.count else 4
+    let nc : Nat := if (b.count : Int) > bufferTrimMin then b.count else bufferTrimMin.toNat
     ({ b with capacity := nc, cells := realloc b.cells nc }, .ok)
   else (b, .ok)
 
@@ -494,10 +599,7 @@ def Buf.newFilled (count : Arg) (byte : Option Arg) : Option Buf :=
   | none => none
   | some c =>
     let c := if c < 0 then 0 else c
-    let bv : Option Nat := match byte with
-      | none => some 0
-      | some x => (getInteger x).map lowByte
-    match bv with
+    match byteArg byte with
     | none => none
     | some v =>
       let b := Buf.new c
@@ -526,27 +628,35 @@ def Buf.blitCore (dest : Buf) (src : Option (List (Option Nat))) (srcLen : Nat) 
       let bytes := (srcNow.drop offsetSrc.toNat).take lengthSrc.toNat
       ({ d' with count := cnt, cells := writeAt d'.cells offsetDest.toNat bytes }, .ok)
 
-/-- `cfun_buffer_blit(dest, src, dest-start, src-start, src-end)`; `src = none` means src is dest itself.
-`argc4` = whether a fifth argument was supplied at all -/
+/-- an optional half-range argument `argc > n && !janet_checktype(argv[n], JANET_NIL) ? janet_gethalfrange(...) : dflt` -/
+def optHalf (a : Option Arg) (length dflt : Int) : Option Int :=
+  match a with
+  | none => some dflt
+  | some .nil => some dflt
+  | some x => getHalfRange x length
+
+/-- the three decoded quantities of `cfun_buffer_blit`: (offset_dest, offset_src, length_src); `none` = a panic in
+`janet_gethalfrange`.  `argc4` = whether a fifth argument was supplied at all -/
+def blitDecode (dlen slen : Int) (ds ss : Option Arg) (argc4 : Bool) (se : Option Arg) : Option (Int × Int × Int) :=
+  match optHalf ds dlen 0 with
+  | none => none
+  | some od =>
+    match optHalf ss slen 0 with
+    | none => none
+    | some os =>
+      if argc4 then
+        match optHalf se slen slen with
+        | none => none
+        | some e => some (od, os, if e - os < 0 then 0 else e - os)
+      else some (od, os, slen - os)
+
+/-- `cfun_buffer_blit(dest, src, dest-start, src-start, src-end)`; `src = none` means src is dest itself
+(`same_buf = src.bytes == dest->data`) -/
 def Buf.blit (dest : Buf) (src : Option (List (Option Nat))) (ds ss : Option Arg) (argc4 : Bool) (se : Option Arg) : Buf × Outcome Nat :=
   let srcItems := match src with | none => dest.items | some l => l
-  let srcLen : Int := srcItems.length
-  let od : Option Int := match ds with | none => some 0 | some .nil => some 0 | some x => getHalfRange x dest.count
-  match od with
+  match blitDecode dest.count srcItems.length ds ss argc4 se with
   | none => (dest, .err)
-  | some offsetDest =>
-    let os : Option Int := match ss with | none => some 0 | some .nil => some 0 | some x => getHalfRange x srcLen
-    match os with
-    | none => (dest, .err)
-    | some offsetSrc =>
-      let ls : Option Int :=
-        if argc4 then
-          let sEnd : Option Int := match se with | none => some srcLen | some .nil => some srcLen | some x => getHalfRange x srcLen
-          sEnd.map (fun e => if e - offsetSrc < 0 then 0 else e - offsetSrc)
-        else some (srcLen - offsetSrc)
-      match ls with
-      | none => (dest, .err)
-      | some lengthSrc => dest.blitCore src srcItems.length offsetDest offsetSrc lengthSrc
+  | some (od, os, ls) => dest.blitCore src srcItems.length od os ls
 
 /-- `janet_put` on a buffer; `value` must pass `janet_checkint` -/
 def Buf.put (b : Buf) (key : Arg) (value : Arg) : Buf × Outcome Nat :=
